@@ -358,6 +358,15 @@ func init() {
 			return m.hashUF(fr, "xxhash64", 64, a[0].(ByteSlice))
 		},
 
+		// pprof.Do(ctx, labels, f): profiling labels are irrelevant; call f(ctx)
+		"runtime/pprof.Do": func(m *Machine, fr *frame, a []Value) Value {
+			m.call(fr, 0, a[2], []Value{a[0]})
+			return nil
+		},
+		"runtime/pprof.Labels": func(m *Machine, fr *frame, a []Value) Value {
+			return m.zero(fr.fn.Signature.Results().At(0).Type())
+		},
+
 		// rawalloc.New(len, cap): uninitialised bytes (modelled as zero, like make)
 		"github.com/cockroachdb/pebble/internal/rawalloc.New": func(m *Machine, fr *frame, a []Value) Value {
 			ln, cp := term(a[0]), term(a[1])
